@@ -24,6 +24,7 @@ type c10Op struct {
 	Half bool   `json:"half,omitempty"` // exercises the floor
 	N    int    `json:"n,omitempty"`    // tick: number of ticks
 	NW   bool   `json:"nw,omitempty"`   // do not wait for the wheel to become quiescent after this call
+	NilV bool   `json:"nilv,omitempty"` // set: the value is an untyped nil (recorded as -1)
 	Pan  []int  `json:"pan,omitempty"`  // drain: the drain function panics for these keys (after recording the hand-over)
 }
 
@@ -86,6 +87,25 @@ type c10Pending struct {
 	val, due int
 }
 
+// c10Far: delays of at least this many intervals are "far" — they lie beyond every
+// horizon the harness ticks through (2^31..2^39 intervals), must never execute and must
+// still be handed over by Drain.
+const c10Far = 1 << 30
+
+func c10Val(v any) int {
+	if v == nil {
+		return -1
+	}
+	return v.(int)
+}
+
+func c10SetVal(o c10Op) (any, int) {
+	if o.NilV {
+		return nil, -1
+	}
+	return o.Val, o.Val
+}
+
 func c10Delay(o c10Op) time.Duration {
 	d := time.Duration(o.M) * c10Interval
 	if o.Half {
@@ -107,7 +127,7 @@ func c10Interp(t *testing.T, c c10Case) (v kit.Verdict) {
 		tk := &c10Ticker{c: make(chan time.Time), stopped: make(chan struct{})}
 		w, err := newTimingWheelWithClock(c10Interval, c.Slots, func(k, val any) {
 			mu.Lock()
-			fires = append(fires, c10Fire{key: k.(int), val: val.(int), tick: ticks})
+			fires = append(fires, c10Fire{key: k.(int), val: c10Val(val), tick: ticks})
 			mu.Unlock()
 		}, tk)
 		if err != nil {
@@ -137,7 +157,8 @@ func c10Interp(t *testing.T, c c10Case) (v kit.Verdict) {
 				var err error
 				switch o.Kind {
 				case "set":
-					err = w.SetTimer(o.Key, o.Val, c10Delay(o))
+					sv, _ := c10SetVal(o)
+					err = w.SetTimer(o.Key, sv, c10Delay(o))
 				case "move":
 					err = w.MoveTimer(o.Key, c10Delay(o))
 				case "remove":
@@ -168,11 +189,21 @@ func c10Interp(t *testing.T, c c10Case) (v kit.Verdict) {
 						if o.M >= c.Slots {
 							classes["multi-revolution"] = true
 						}
-						model[o.Key] = c10Pending{val: o.Val, due: ticks + o.M}
+						_, mv := c10SetVal(o)
+						if o.NilV {
+							classes["nil-value"] = true
+						}
+						if o.M >= c10Far {
+							classes["far-delay"] = true
+						}
+						model[o.Key] = c10Pending{val: mv, due: ticks + o.M}
 					case "move":
 						if pending {
 							classes["move-pending"] = true
 							nontrivial = true
+							if o.M >= c10Far {
+								classes["far-delay"] = true
+							}
 							model[o.Key] = c10Pending{val: p.val, due: ticks + o.M}
 						} else {
 							classes["move-absent"] = true
@@ -251,7 +282,7 @@ func c10Interp(t *testing.T, c c10Case) (v kit.Verdict) {
 				drainPanicked := false
 				err := w.Drain(func(k, val any) {
 					dm.Lock()
-					got = append(got, c10Fire{key: k.(int), val: val.(int), drained: true})
+					got = append(got, c10Fire{key: k.(int), val: c10Val(val), drained: true})
 					dm.Unlock()
 					for _, pk := range o.Pan {
 						if pk == k.(int) {
@@ -313,7 +344,7 @@ func c10Interp(t *testing.T, c c10Case) (v kit.Verdict) {
 		if !stopped {
 			maxDue := ticks
 			for _, p := range model {
-				if p.due > maxDue {
+				if p.due > maxDue && p.due-ticks < c10Far/2 {
 					maxDue = p.due
 				}
 			}
@@ -342,10 +373,35 @@ func c10Interp(t *testing.T, c c10Case) (v kit.Verdict) {
 					classes["fired"] = true
 				}
 			}
+			// whatever is still pending lies beyond the horizon (far delays): it must not have
+			// executed and Drain must still hand it over, exactly once, with its latest value
+			if !drained && len(model) > 0 {
+				var dm sync.Mutex
+				var got, want []c10Fire
+				err := w.Drain(func(k, val any) {
+					dm.Lock()
+					got = append(got, c10Fire{key: k.(int), val: c10Val(val), drained: true})
+					dm.Unlock()
+				})
+				kit.Wait()
+				for k, p := range model {
+					want = append(want, c10Fire{key: k, val: p.val, drained: true})
+				}
+				sort.Slice(got, func(a, b int) bool { return got[a].key < got[b].key })
+				sort.Slice(want, func(a, b int) bool { return want[a].key < want[b].key })
+				if err != nil || fmt.Sprint(got) != fmt.Sprint(want) {
+					fail = fmt.Sprintf("horizon: final drain (err %v) handed over %v, model still pending %v", err, got, want)
+					return
+				}
+				classes["far-delay-drained"] = true
+				if !expectNoFire("after final drain") {
+					return
+				}
+			}
 			w.Stop()
 		}
 	})
-	v.NonTrivial = nontrivial && classes["fired"]
+	v.NonTrivial = nontrivial && (classes["fired"] || classes["far-delay-drained"])
 	for k := range classes {
 		v.Classes = append(v.Classes, k)
 	}
@@ -356,6 +412,12 @@ func c10Interp(t *testing.T, c c10Case) (v kit.Verdict) {
 		v.Fail = "bubble: " + res.String()
 	}
 	return v
+}
+
+// c10FarM: a delay of 2^e + r intervals, e in 31..39 (10 ms * 2^39 still fits a Duration).
+func c10FarM(rt *rapid.T) int {
+	e := rapid.IntRange(31, 39).Draw(rt, "fare")
+	return 1<<e + rapid.IntRange(-3, 40).Draw(rt, "farr")
 }
 
 func c10Gen(rt *rapid.T) c10Case {
@@ -395,10 +457,17 @@ func c10Gen(rt *rapid.T) c10Case {
 			o.M = rapid.IntRange(1, maxM).Draw(rt, "m")
 			o.Half = rapid.Bool().Draw(rt, "half")
 			o.NW = !stopped && rapid.IntRange(0, 2).Draw(rt, "nw") == 0
+			o.NilV = rapid.IntRange(0, 5).Draw(rt, "nilv") == 5
+			if rapid.IntRange(0, 11).Draw(rt, "far") == 11 {
+				o.M = c10FarM(rt)
+			}
 		case "move":
 			o.Key = rapid.IntRange(0, nkeys-1).Draw(rt, "key")
 			o.M = rapid.IntRange(1, maxM).Draw(rt, "m")
 			o.Half = rapid.Bool().Draw(rt, "half")
+			if rapid.IntRange(0, 11).Draw(rt, "far") == 11 {
+				o.M = c10FarM(rt)
+			}
 		case "remove":
 			o.Key = rapid.IntRange(0, nkeys-1).Draw(rt, "key")
 			o.NW = !stopped && rapid.IntRange(0, 2).Draw(rt, "nw") == 0
